@@ -22,7 +22,8 @@ CLAIMS = {
     "C02": ("finite-table extraction from MIR (binding powers, operator spellings) compared with the documentation table; normal-form check of the Pratt cut-off; dominance order of short-circuit emission",
             "Static decision that the code's precedence/associativity table equals the documented one for all 19+2 operators (exhaustive over the "
             "operator set, keyed by the code's own spelling), that the Pratt cut-off is the strict `<` against min_bp leaving the loop, that the "
-            "right operand uses r_bp, and that and/or/ternary compile to (and the VM executes) the short-circuit order. A suite samples "
+            "right operand uses r_bp, that and/or/ternary compile to (and the VM executes) the short-circuit order, and that every and/or node "
+            "opens and patches its own jump (lands right after its own right operand). A suite samples "
             "expressions; this covers every operator pair. Does not decide the values operators produce or the undefined rules.",
             "trusts rustc's MIR; the docs table as the specification",
             "DESIGN.md §5 C02"),
@@ -44,18 +45,22 @@ CLAIMS = {
             "Static decision that every rendering report takes (name, source) from one report_target call on the executing chunk, that "
             "report_target returns both components of the same template (tera.templates[chunk.name] or the VM's own), that every chunk is named "
             "after its defining template, that registration-time reports pair name/source of one template, and that no syntax error leaves "
-            "Template::new without its source. Does not decide line/column consistency or span coverage.",
+            "Template::new without its source; and that the tokenizer's line / column / byte counters move in lock-step per char "
+            "(byte += len_utf8, column += 1 or line += 1 & column = 0) and every Span reads them (so line:column is consistent with the byte range). "
+            "Does not decide that a span covers the offending token.",
             "trusts rustc's MIR",
             "DESIGN.md §5 C12"),
     "C14": ("provenance of str slicing offsets (char_indices / grapheme_indices only); dominance guards on index arithmetic, narrowing casts and the zero-step test",
             "Static decision, per feature configuration, that no str is byte-sliced except at char-boundary offsets, that the raw integer sites "
             "of index resolution keep their guards, that narrowing casts are consumed only under the range test, and that a zero step errors "
-            "before any loop. Does not decide equality with Python's clamping.",
+            "before any loop, and that an index is normalised against the len() of the very sequence it then indexes (chars, not bytes). "
+            "Does not decide equality with Python's clamping.",
             "trusts rustc's MIR; std/unicode-segmentation index iterators",
             "DESIGN.md §5 C14"),
     "C16": ("callee identity of the order consumers (sort_by comparator, BTreeSet) + the C15.ORD pair walk; reviewed panic-site table for collection filters",
             "Static decision that sort/unique order through Ord for Value (whose totality skeleton is re-checked), that sort's non-empty Ok returns "
-            "lie behind ensure_comparable, that first/last/nth use Option-returning accessors, and that the panic-capable sites of the filters are "
+            "lie behind ensure_comparable (run on the sorted sequence), that first/last/nth use Option-returning accessors, that join/split "
+            "delegate separator placement to std's join/split with the keyword argument over every element, and that the panic-capable sites of the filters are "
             "exactly the reviewed set. Does not decide permutation/stability/partition laws.",
             "trusts rustc's MIR; std sort stability",
             "DESIGN.md §5 C16"),
@@ -123,22 +128,35 @@ CLAIMS = {
     "C08": ("typestate dataflow over the whitespace filter's MIR; provenance (def-use) of text payloads",
             "Static typestate check: on every path from every token arm of the whitespace filter to return, the carried trim flag is "
             "consumed or overwritten (so a '-' marker only trims the directly adjacent token); the end-trim look-ahead covers every start "
-            "token; literal text payloads flow lexer->parser->compiler through identity/trim/split only. Decides these structural clauses "
+            "token and is present in every arm that hands on literal text (Content, RawContent); literal text payloads flow lexer->parser->compiler through identity/trim/split only. Decides these structural clauses "
             "for all inputs; does not decide byte-for-byte output equality.",
             "trusts rustc's MIR, std str::trim_*/split_at contracts",
             "DESIGN.md §5 C08"),
     "C15": ("exhaustive walk of the finite variant-pair domain (144 + 49 pairs) through the MIR of the comparison impls",
             "Static, exhaustive over the tag domain: no pair of equal kind-rank can reach the rank fallback of Ord::cmp (for Value and "
             "Key), the results for such pairs come from Ord/Iterator::cmp or partial_cmp's Some payload, Key's Eq/Ord/Hash share the "
-            "as_str/as_number normalisers, and every sign-changing cast in KeyNumber is guarded. This is the totality / Eq-consistency "
+            "as_str/as_number normalisers, every sign-changing cast in KeyNumber is guarded, and KeyNumber's Hash writes the same "
+            "(type, tag) sequence for a non-negative Signed as for an Unsigned value. This is the totality / Eq-consistency "
             "skeleton of the order; payload-level laws are not decided.",
             "trusts rustc's MIR and std's Ord impls of primitives, slices and iterators",
             "DESIGN.md §5 C15"),
 }
 
+CLAIMS["C03"] = (
+    "first-match chain order (reachability/dominance) of the scope lookups; who-may-write inventories; must-pass-through clear on loop advance; finite name->counter tables "
+    "read off the MIR of parser and VM; type-level read-only includer state; emission-order skeletons of if/for in the compiler",
+    "Static decision of the clauses of C03 whose truth is in the shape of the code: name resolution consults loops (innermost first), assignments, "
+    "includer, context, global in that order and a hit returns at once; `set` writes the innermost loop frame else the render-wide map, `set_global` "
+    "the render-wide map, with compiler and VM agreeing on the opcodes; every advance to a further element clears the per-iteration assignments; the "
+    "loop counters follow index = index0 + 1, first = false after the first, last = (index == length); the parser's loop.X table and the VM's table "
+    "agree; an include runs on a fresh State linked to the includer only through `&State` (a type without interior mutability) and writes into the "
+    "innermost open capture; continue/break/for-else/if compile and execute against the innermost loop with the documented skeleton. For all "
+    "templates and contexts, which a snapshot per construct cannot give. Does NOT decide the rendered text of arbitrary statement trees "
+    "(value-level composition of these clauses) nor the numeric values of jump targets.",
+    "trusts rustc's MIR; std collections/iterators (Rev, BTreeMap/HashMap get/insert)",
+    "DESIGN.md §5 C03")
+
 NA_REASONS = {
-    "C03": "control flow / scoping / loop counters / capture contents are functions of runtime values; the only structural parts "
-           "(push/pop pairing, jump patching) are checked under C06/C07 and decide no clause of C03 itself",
     "C04": "which block definition wins and what super() yields depend on lineage values computed at registration; no structural "
            "clause short of re-implementing the resolver; the unbounded-recursion shape found is handled under C07/C11",
 }
